@@ -19,6 +19,8 @@ R13d escape audit of the unprotected part of Engine.tick: for every call in tick
      to (exception type, raising function) pairs; each pair must be in the justified table below (reason per
      entry) or be raised by a hardware-layer implementation (HardwareLayerBase subclass - the property
      assumes hardware that answers in its declared domain; HardwareLayerException is handled locally).
+     The builtins that raise on an empty argument when called without a fallback - next(it), max(xs), min(xs) - count
+     as raise sites too (StopIteration / ValueError); other partial builtins need value reasoning and are not tracked.
      A new pair is a violation: an exception out of Engine.tick silently stops the tick timer thread.
 R13e responsiveness: Stop is not refused in the Paused state by _validate_control_command, and the merge
      branch of Engine._set_method clears the error state after a successful merge.
@@ -365,7 +367,7 @@ def run(ctx) -> None:
     # ---------------------------------------------------------------- R13d
     depth = 4 if ctx.tier == "quick" else 6
     orig = res.resolve_call
-    eff = Effects(prog, _CHA(res, orig))
+    eff = Effects(prog, _CHA(res, orig), partial_builtins=True)
     hw = prog.cls("openpectus.engine.hardware:HardwareLayerBase")
     hw_names = {hw.name} | {c.name for c in hw.all_subclasses()}
     protected = {id(x) for tr in guarded_trys for st in tr.body for x in ast.walk(st)}
@@ -382,6 +384,14 @@ def run(ctx) -> None:
     for n in walk_no_nested(tick.node):
         if isinstance(n, (ast.Raise, ast.Assert)) and id(n) not in protected:
             seen_pairs.setdefault(("AssertionError" if isinstance(n, ast.Assert) else "raise", "Engine.tick"), []).append((n, None))
+    # partial builtins called directly in the unprotected part (handled by no enclosing try of tick itself)
+    pm_tick = parent_map(tick.node)
+    for n in walk_no_nested(tick.node):
+        if isinstance(n, ast.Call) and id(n) not in protected and isinstance(n.func, ast.Name) and n.func.id in ("next", "max", "min") \
+                and len(n.args) == 1 and not n.keywords and not isinstance(n.args[0], (ast.List, ast.Tuple, ast.Set, ast.Dict, ast.Constant)):
+            exc = "StopIteration" if n.func.id == "next" else "ValueError"
+            if not eff._caught(pm_tick, n, tick, exc):
+                seen_pairs.setdefault((exc, "Engine.tick"), []).append((n, None))
     ctx.extra["r13d_unprotected_calls"] = n_calls
     ctx.extra["r13d_inline_depth"] = depth
     ctx.extra["r13d_pairs"] = sorted(f"{a} in {b}" for a, b in seen_pairs)
